@@ -284,6 +284,8 @@ def read(self, path: str, detect_rf_use: bool = False, remove_duplicates: bool =
                     if self.use_block_cache:
                         grad.first = self.grad_library.data[amplitude_ID][4]
                         grad.last = self.grad_library.data[amplitude_ID][5]
+                    # Same event on an earlier channel of this block: it ends where that one ends
+                    grad_prev_last[j] = grad_prev_last[list(event_idx[2 : (j + 2)]).index(amplitude_ID)]
                     continue
 
                 # get time_id from grad_library
